@@ -109,7 +109,8 @@ def coarsen_real(p, inputs):
 def _cases(tier):
     out = []
     if tier == "quick":
-        specs = [((3,), "fixed", 2, 1, 3), ((2, 1), "variable", 2, 1, 3), ((1, 3), "fixed", 2, 2, 2), ((4,), "even", 2, 1, 3)]
+        specs = [((3,), "fixed", 2, 1, 3), ((2, 1), "variable", 2, 1, 3), ((1, 3), "fixed", 2, 2, 2), ((4,), "even", 2, 1, 3),
+                 ((4,), "even", 3, 2, 2)]   # three pixels, two workers: batches of spans of unequal size
     else:
         specs = [((3,), "fixed", 2, 1, 4), ((2, 1), "variable", 2, 1, 3), ((1, 3), "fixed", 3, 2, 3), ((4,), "even", 3, 1, 4), ((2, 3), "variable", 3, 3, 3),
                  ((5,), "fixed", 3, 1, 4), ((1, 1, 2), "fixed", 3, 2, 2), ((3, 3), "even", 4, 1, 3)]
